@@ -139,6 +139,12 @@ def gen_smoothing(rng, fnyq, n, dt, operator=None):
         fcs = f[idx] + (f[1] - f[0]) * rng.choice([0.0, 0.3, -0.3, 0.45, -0.45], size=len(idx))
     else:
         fcs = np.sort(np.exp(rng.uniform(np.log(max(0.2, 2.0 / (n * dt))), np.log(0.9 * fnyq), size=k)))
+    # the curves are promised at the centre frequencies *requested*: in a third of the cases these are not in ascending order (descending, or shuffled)
+    u = rng.random()
+    if u < 0.15:
+        fcs = fcs[::-1].copy()
+    elif u < 0.33:
+        fcs = rng.permutation(fcs)
     return operator, b, fcs
 
 
